@@ -146,7 +146,8 @@ func genOpt(kinds []string, big bool) *rapid.Generator[OptSpec] {
 		case "scope":
 			o.Int = rapid.IntRange(-1, 4).Draw(t, "scope")
 		case "grace", "expire", "errcode":
-			o.Int = rapid.IntRange(0, 400).Draw(t, "uintarg")
+			// uint arguments: small, boundary and huge values (a negative Int wraps to >= 2^63 in uint())
+			o.Int = rapid.OneOf(rapid.IntRange(0, 400), rapid.SampledFrom([]int{-1, -2, -9, -128, -9223372036854775808, 9223372036854775807, 2147483647, 2147483648, 4294967295, 4294967296, 255, 256, 65535}), rapid.Int()).Draw(t, "uintarg")
 		case "readtimeout", "writetimeout":
 			o.Int = rapid.IntRange(0, 1000000).Draw(t, "dur")
 		case "crit", "logger", "onclose", "tlsconfig", "writer":
